@@ -150,21 +150,22 @@ void RadioTapWriter::update_paddings(const vector<uint8_t>& paddings, uint32_t o
         if (i == paddings.size()) {
             break;
         }
-        offset += start;
-        const uint8_t needed_padding = calculate_padding(paddings[i], offset + sizeof(uint32_t));
+        // offset is the buffer index of paddings[0], shifted by whatever was
+        // removed/added so far, so this padding run starts at offset + start
+        const uint32_t position = offset + start;
+        const uint8_t needed_padding = calculate_padding(paddings[i], position + sizeof(uint32_t));
         const size_t existing_padding = i - start;
         // Remove padding if there's too much
         if (existing_padding > needed_padding) {
-            buffer_.erase(buffer_.begin() + offset,
-                          buffer_.begin() + offset + (existing_padding - needed_padding));
+            buffer_.erase(buffer_.begin() + position,
+                          buffer_.begin() + position + (existing_padding - needed_padding));
             offset -= existing_padding - needed_padding;
         }
         // Add padding if there's too little
         else if (existing_padding < needed_padding) {
-            buffer_.insert(buffer_.begin() + offset, needed_padding - existing_padding, 0);
+            buffer_.insert(buffer_.begin() + position, needed_padding - existing_padding, 0);
             offset += needed_padding - existing_padding;
         }
-        offset += i - start;
         ++i;
     }
 }
